@@ -201,6 +201,73 @@ func runC14(c *Ctx) error {
 			}
 		}
 	}
+	// --- family config-route: the same split when the version reaches nfpm through a configuration file, literally
+	// or through the environment (version: ${VERIF_VERSION}); what Parse hands on must be the split of the value
+	// the document denotes
+	fam2b := c.Rep.Family("with-defaults-config-route", "generated (version, schema, explicit prerelease/metadata, release, epoch) written as a YAML document with the version given literally or as ${VERIF_VERSION} / $VERIF_VERSION resolved by the environment mapping, nfpm.ParseWithEnvMapping: the version components of the parsed configuration vs the model of nfpm.WithDefaults applied to the denoted values; versions holding '$' are left out; one evaluation per document; non-trivial = version parses as semver")
+	mb := c.N(600, 20000)
+	for i := 0; i < mb; i++ {
+		vc := genVerCase(r)
+		if vc.Schema == "bogus" {
+			vc.Schema = "" // rejected by the schema validation of the parser: not this family's subject
+		}
+		if vc.Version == "" || strings.ContainsAny(vc.Version+vc.Pre+vc.Meta, "$\n") {
+			continue
+		}
+		style := r.Intn(3)
+		q := func(s string) string { return strconv.Quote(s) }
+		ver := q(vc.Version)
+		switch style {
+		case 1:
+			ver = q("${VERIF_VERSION}")
+		case 2:
+			ver = q("$VERIF_VERSION")
+		}
+		doc := "name: verifpkg\narch: amd64\nplatform: linux\nversion: " + ver + "\n"
+		if vc.Schema != "" {
+			doc += "version_schema: " + q(vc.Schema) + "\n"
+		}
+		if vc.Pre != "" {
+			doc += "prerelease: " + q(vc.Pre) + "\n"
+		}
+		if vc.Meta != "" {
+			doc += "version_metadata: " + q(vc.Meta) + "\n"
+		}
+		if vc.Release != "" {
+			doc += "release: " + q(vc.Release) + "\n"
+		}
+		if vc.Epoch != "" {
+			doc += "epoch: " + q(vc.Epoch) + "\n"
+		}
+		cfg, perr := nfpm.ParseWithEnvMapping(strings.NewReader(doc), func(k string) string {
+			if k == "VERIF_VERSION" {
+				return vc.Version
+			}
+			return ""
+		})
+		_, serr := semver.NewVersion(vc.Version)
+		in := vc.in()
+		in["version_written_as"] = []string{"literal", "${VERIF_VERSION}", "$VERIF_VERSION"}[style]
+		in["document"] = doc
+		fam2b.Eval(doc+"|"+vc.Version, serr == nil)
+		fam2b.Count(in["version_written_as"].(string))
+		if perr != nil {
+			fam2b.Count("parse-error")
+			c.Rep.Disagree(report.Disagreement{Family: "with-defaults-config-route", What: "nfpm.ParseWithEnvMapping rejects a generated document", Input: in, Model: "accepted", Impl: perr.Error()})
+			continue
+		}
+		vi := VInfo{Version: vc.Version, Schema: vc.Schema, Prerelease: vc.Pre, Metadata: vc.Meta}
+		a, err := c.D.Ask("vdefaults " + vi.Enc())
+		if err != nil {
+			return err
+		}
+		got := fmt.Sprintf("%s %s %s", wire.H(cfg.Version), wire.H(cfg.Prerelease), wire.H(cfg.VersionMetadata))
+		if a != got || cfg.Release != vc.Release || cfg.Epoch != vc.Epoch {
+			c.Rep.Find(report.Finding{Property: "C14", Family: "with-defaults-config-route", Shape: "config-route:version-components-differ-from-the-split-of-the-denoted-version",
+				What:  fmt.Sprintf("the document denotes version %q (prerelease %q, metadata %q, release %q, epoch %q); the parsed configuration carries version=%q prerelease=%q metadata=%q release=%q epoch=%q; model of the split: %s", vc.Version, vc.Pre, vc.Meta, vc.Release, vc.Epoch, cfg.Version, cfg.Prerelease, cfg.VersionMetadata, cfg.Release, cfg.Epoch, a),
+				Input: in})
+		}
+	}
 	// --- family order: version strings inside real packages, prerelease < release
 	fam3 := c.Rep.Family("ordering", "for generated semantic versions with a prerelease (x metadata x release x epoch): the version strings found inside real deb/ipk/rpm packages of the prerelease build and of the corresponding release build; model rendering vs package; prerelease must sort strictly before release under dpkg's / rpm's algorithm (model comparators; dpkg --compare-versions as oracle for the dpkg comparator when installed); numeric and epoch ordering on neighbouring versions; non-trivial = every case")
 	k := c.N(60, 1500)
@@ -333,7 +400,7 @@ func runC14(c *Ctx) error {
 func runC15(c *Ctx) error {
 	r := c.R.Fork("c15")
 	fam := c.Rep.Family("file-name", "generated identities (name, version via WithDefaults from grammar versions, explicit prerelease/metadata, release, epoch, GOARCH from the documented table and unknown ones, per-format arch override) x 5 formats: ConventionalFileName vs model; file name components vs the metadata decoded from the package built from the same settings; asking for the name first must not change the package; non-trivial = version has a prerelease, metadata, release or epoch")
-	names := []string{"foo", "foo-bar", "lib_x+1", "a.b", "verif2"}
+	names := []string{"foo", "foo-bar", "lib_x+1", "a.b", "verif2", ".hidden-tool", "-lead", "Foo_Bar", "x@y"}
 	arches := []string{"amd64", "386", "arm64", "arm5", "arm6", "arm7", "mips64le", "mipsle", "mips", "ppc64le", "s390", "all", "riscv64", "x86_64"}
 	n := c.N(120, 4000)
 	for i := 0; i < n; i++ {
